@@ -25,7 +25,7 @@ def genCM : CM := { cmOfTbl genTbl [] with depthLimit := Gen.maxParseDepth }
 def pinnedSkeleton : List (String × String) := [
   ("Executable.SetContextRecursive", "fecba30c47b5"),
   ("Executable.String", "36b2f6bde286"),
-  ("Executable.Validate", "8980d68808db"),
+  ("Executable.Validate", "93a685e83687"),
   ("Executable.validateFragmentCycles", "1eb7c3116412"),
   ("Executable.write", "bdebd1326245"),
   ("Field.String", "235038b68a19"),
